@@ -30,6 +30,7 @@ type cfg struct {
 	PBits []int    `json:"pbits"`
 	Ring  string   `json:"ring"`
 	Xs    string   `json:"xs"`
+	Xe    string   `json:"xe,omitempty"` // error distribution ("" = default), set by the audit families only
 }
 
 func (c cfg) params() (rlwe.Parameters, error) {
@@ -46,7 +47,18 @@ func (c cfg) params() (rlwe.Parameters, error) {
 	case "gauss":
 		xs = ring.DiscreteGaussian{Sigma: 3.2, Bound: 19.2}
 	}
-	return rlwe.NewParametersFromLiteral(rlwe.ParametersLiteral{LogN: c.LogN, Q: c.Q, P: c.P, Xs: xs, RingType: rt, NTTFlag: true})
+	var xe ring.DistributionParameters // nil: the default error distribution
+	switch c.Xe {
+	case "tight": // heavily truncated
+		xe = ring.DiscreteGaussian{Sigma: 3.2, Bound: 3}
+	case "narrow":
+		xe = ring.DiscreteGaussian{Sigma: 0.7, Bound: 2}
+	case "wide":
+		xe = ring.DiscreteGaussian{Sigma: 25.6, Bound: 153.6}
+	case "tern":
+		xe = ring.Ternary{P: 0.5}
+	}
+	return rlwe.NewParametersFromLiteral(rlwe.ParametersLiteral{LogN: c.LogN, Q: c.Q, P: c.P, Xs: xs, Xe: xe, RingType: rt, NTTFlag: true})
 }
 
 // extraCases lets other files of this package contribute case families (ring packing, domain switch).
